@@ -57,6 +57,13 @@ package main
 // WriteThenPanic) are part of the observed bytes.  Each hook also knows which logger it was installed
 // for: an entry of any other logger is recorded in c08Stale like a stale delivery.
 
+//
+// SHARED CONFIGURATION.  State that is shared without being pooled - the EncoderConfig every encoder of a
+// logger family points to, the logger's long-lived encoder - is the subject of c08_family.go: encoder
+// callbacks that are silent for some inputs only, long-lived logger families, unusual entries (Level(42),
+// times before 1970, callers without a file, dotted names) between identical calls through the logger,
+// its With / Named children, siblings, cores and encoder clones.
+
 import (
 	"bytes"
 	"context"
@@ -960,11 +967,13 @@ func c08Probes(seed uint64) []*c08Probe {
 	})
 	// entries of 70 KiB .. 1 MiB followed by small ones (c08_huge.go)
 	c08HugeProbes(add)
+	// logger families that share one EncoderConfig, partial callbacks, unusual entries (c08_family.go)
+	c08FamilyProbes(seed, add)
 	return ps
 }
 
 // ---------- history operations ----------
-const c08NKinds = 20 // 16..19: oversize operations (c08_huge.go)
+const c08NKinds = 21 // 16..19: oversize operations (c08_huge.go); 20: a long-lived logger family (c08_family.go)
 
 // executes one history operation; returns its abstraction and a class letter.  Its sinks and hooks
 // are retired when it is over; whatever reached a retired sink / hook meanwhile is unexpected.
@@ -1183,6 +1192,9 @@ func c08HistOp1(sc *c08Scope, r *RNG, kind int) (desc SX, class string, unexpect
 			}
 		})
 		return c08Abs(6, a, b, c, d, e, fl&3), "y", unexpected
+	case c08KFamily: // an unusual or ordinary entry through a member of a long-lived logger family (c08_family.go)
+		fd, fc := c08FamOp(sc, r, quiet)
+		return fd, fc, unexpected
 	case c08KHugeField, c08KHugeCtx, c08KHugeShape, c08KHugeDirect: // entries of 70 KiB .. 1 MiB (c08_huge.go)
 		hd, hc, hu := c08HugeOp(sc, r, kind, quiet)
 		if unexpected == "" {
@@ -1241,15 +1253,16 @@ func c08(c *Ctx) {
 	info := func(k, v string) { side = append(side, func() { c.Info(k, v) }) }
 	var sideMu sync.Mutex
 	seenViol := map[string]bool{}
-	viol := func(what string, replay SX) {
+	violK := func(key, what string, replay SX) {
 		sideMu.Lock()
 		defer sideMu.Unlock()
-		if seenViol[what] || len(seenViol) >= 6 { // one replay per distinct symptom is enough
+		if seenViol[key] || len(seenViol) >= 6 { // one replay per distinct symptom is enough
 			return
 		}
-		seenViol[what] = true
+		seenViol[key] = true
 		side = append(side, func() { c.Viol(what, replay) })
 	}
+	viol := func(what string, replay SX) { violK(what, what, replay) }
 	defer func() {
 		for _, f := range side {
 			f()
@@ -1306,7 +1319,7 @@ func c08(c *Ctx) {
 			}
 		}
 		if pm != "" {
-			viol("probe "+p.label+" ("+c08ActNames[act]+") panicked after history ["+classes+"]: "+pm, L(I(p.id), I(act), L(hist...)))
+			violK("panic "+p.label+": "+pm, "probe "+p.label+" ("+c08ActNames[act]+") panicked after history ["+classes+"]: "+pm, L(I(p.id), I(act), L(hist...)))
 			out = []byte("PANIC " + pm)
 		}
 		emit(p, hist, classes, out, class, act)
@@ -1318,7 +1331,7 @@ func c08(c *Ctx) {
 		runtime.GC()
 		out, pm, st := c08call(p, 0)
 		if pm != "" {
-			viol("probe "+p.label+" panicked in a fresh state: "+pm, L(I(p.id)))
+			violK("panic "+p.label+": "+pm, "probe "+p.label+" panicked in a fresh state: "+pm, L(I(p.id)))
 			out = []byte("PANIC " + pm)
 		}
 		if st != "" {
@@ -1361,7 +1374,7 @@ func c08(c *Ctx) {
 				if k == 5 && rep > 0 {
 					break
 				}
-				if k >= c08KHugeField {
+				if k >= c08KHugeField && k <= c08KHugeDirect {
 					c08SizePlan = c08HugeSizes[rep] // 70 KiB, 200 KiB, 1 MiB
 					if rep == 2 && (p.id+k+int(c.Seed))%2 == 1 && !c.Thorough {
 						c08SizePlan = 400 << 10 // quick tier: the 1 MiB entry before every other probe
@@ -1378,9 +1391,34 @@ func c08(c *Ctx) {
 			observe(p, hist, cls, "pair", 0)
 		}
 	}
+	// shared configuration: every unusual entry through every member of a long-lived family, each followed
+	// by the identical calls of that family's probe (the families are never rebuilt: whatever an entry
+	// leaves behind in the configuration its relatives share stays there)
+	for fi, label := range []string{"family-json-shared-config", "family-console-shared-config"} {
+		var fp *c08Probe
+		for _, p := range probes {
+			if p.label == label {
+				fp = p
+			}
+		}
+		if fp == nil {
+			continue
+		}
+		for v := 0; v < c08NFamVariants; v++ {
+			for m := 0; m < c08NFamMembers; m++ {
+				c08FamPlan = &[3]int{fi, m, v}
+				h, cl, u := c08HistOp(r, c08KFamily)
+				c08FamPlan = nil
+				if u != "" {
+					viol(u, L(I(c08KFamily), L(h)))
+				}
+				observe(fp, []SX{h}, cl, "family", 0)
+			}
+		}
+	}
 	// oversize operations with a collection between them and the probe: after ONE runtime.GC() the
 	// objects sit in sync.Pool's victim cache and are still handed out, after two the pools are empty
-	for k := c08KHugeField; k < c08NKinds; k++ {
+	for k := c08KHugeField; k <= c08KHugeDirect; k++ {
 		for _, p := range probes {
 			if (p.id+k+int(c.Seed))%3 != 0 && !c.Thorough { // quick tier: a third of the probes per kind, rotating with the seed
 				continue
@@ -1497,8 +1535,11 @@ func c08(c *Ctx) {
 			if r.Chance(40) {
 				k = r.Intn(5) // the cheap, pool-heavy kinds dominate
 			}
-			if k >= c08KHugeField && !c.Thorough && r.Chance(55) {
+			if k >= c08KHugeField && k <= c08KHugeDirect && !c.Thorough && r.Chance(55) {
 				k = r.Intn(5) // quick tier: a handful of oversize operations per history
+			}
+			if r.Chance(6) {
+				k = c08KFamily // the long-lived families keep logging (every twelfth operation or so)
 			}
 			x, cl, u := c08HistOp(r, k)
 			hist = append(hist, x)
